@@ -2289,12 +2289,12 @@ func (a *adapter) MessageDeleteList(topic string, toDel *t.DelMessage) error {
 			if rng.Hi == 0 {
 				rangeFilter = append(rangeFilter, b.M{"seqid": rng.Low})
 			} else {
-				rangeFilter = append(rangeFilter, b.M{"seqid": b.M{"$gte": rng.Low, "$lte": rng.Hi}})
+				rangeFilter = append(rangeFilter, b.M{"seqid": b.M{"$gte": rng.Low, "$lt": rng.Hi}})
 			}
 		}
 		filter["$or"] = rangeFilter
 	} else {
-		filter["seqid"] = b.M{"$gte": toDel.SeqIdRanges[0].Low, "$lte": toDel.SeqIdRanges[0].Hi}
+		filter["seqid"] = b.M{"$gte": toDel.SeqIdRanges[0].Low, "$lt": toDel.SeqIdRanges[0].Hi}
 	}
 
 	if toDel.DeletedFor == "" {
